@@ -20,14 +20,25 @@ from pathlib import Path
 
 # --------------------------------------------------------------------------- projection
 
-def num_token(v):
-    """a number as the specification's token: the shortest decimal string that reads back to the same double"""
-    if v is None or v == "":
-        return ""
+def norm_token(s):
+    """Uniform lexing of tokens, applied to every projection alike (molecule in memory, written text, molecules read back, expected
+    tokens of the specification): a token that is a decimal numeral stands for its IEEE double - integral values as the integer
+    numeral, others as the shortest numeral that reads back to the same double.  Comparison of numbers is therefore exact (the writer
+    formats floats with str(), which loses nothing); '14.0270', 14.027 and '1.4027e1' are the same token, '0.30' and '0.3' too."""
+    s = str(s)
     try:
-        return repr(float(v))
-    except (TypeError, ValueError):
-        return str(v)
+        f = float(s)
+    except ValueError:
+        return s
+    if f != f or f in (float("inf"), float("-inf")):
+        return s
+    if f.is_integer() and abs(f) < 1e15:
+        return str(int(f))
+    return repr(f)
+
+
+def num_token(v):
+    return "" if v is None or v == "" else norm_token(v)
 
 
 def project_molecule(mol, name, nrexcl=None):
@@ -37,8 +48,9 @@ def project_molecule(mol, name, nrexcl=None):
     atoms = []
     for n in order:
         d = mol.nodes[n]
-        atoms.append({"name": str(d.get("atomname")), "type": str(d.get("atype")), "resid": str(d.get("resid")), "resname": str(d.get("resname")),
-                      "cg": str(d.get("charge_group")), "charge": num_token(d.get("charge")), "mass": num_token(d.get("mass"))})
+        atoms.append({"name": norm_token(d.get("atomname")), "type": norm_token(d.get("atype")), "resid": norm_token(d.get("resid")),
+                      "resname": norm_token(d.get("resname")), "cg": norm_token(d.get("charge_group")), "charge": num_token(d.get("charge")),
+                      "mass": num_token(d.get("mass"))})
     inter = []
     for sec, lst in mol.interactions.items():
         for x in lst:
@@ -51,16 +63,16 @@ def project_molecule(mol, name, nrexcl=None):
                 gk, gtag = "ifndef", str(gn)
             else:
                 gk, gtag = "none", ""
-            inter.append({"sec": str(sec), "atoms": [pos.get(a, "?%r" % (a,)) for a in x.atoms], "par": [str(p) for p in x.parameters],
+            inter.append({"sec": str(sec), "atoms": [pos.get(a, "?%r" % (a,)) for a in x.atoms], "par": [norm_token(p) for p in x.parameters],
                           "gk": gk, "gtag": gtag})
     nre = nrexcl if nrexcl is not None else getattr(mol, "nrexcl", None)
-    return {"name": str(name), "nrexcl": str(nre), "atoms": atoms, "inter": inter}
+    return {"name": norm_token(name), "nrexcl": norm_token(nre), "atoms": atoms, "inter": inter}
 
 
 def project_resgraph(meta):
     """residue graph of a MetaMolecule: nodes = (resid, resname), edges = pairs of residue ids"""
-    nodes = [{"id": str(meta.nodes[n].get("resid")), "name": str(meta.nodes[n].get("resname"))} for n in meta.nodes]
-    edges = [sorted([str(meta.nodes[a].get("resid")), str(meta.nodes[b].get("resid"))]) for a, b in meta.edges]
+    nodes = [{"id": norm_token(meta.nodes[n].get("resid")), "name": norm_token(meta.nodes[n].get("resname"))} for n in meta.nodes]
+    edges = [sorted([norm_token(meta.nodes[a].get("resid")), norm_token(meta.nodes[b].get("resid"))]) for a, b in meta.edges]
     return {"nodes": nodes, "edges": edges}
 
 
@@ -83,7 +95,7 @@ def tokenise(text):
             else:
                 lines.append({"k": "pragma", "s": body, "t": []})
         else:
-            lines.append({"k": "row", "s": comment.strip(), "t": body.split()})
+            lines.append({"k": "row", "s": comment.strip(), "t": [norm_token(t) for t in body.split()]})
     return lines
 
 
@@ -122,7 +134,7 @@ class Capture:
             res = list(cap.orig_missing(meta, molecule))
             cap.stage = "links applied"
             cap.req = project_resgraph(meta)
-            cap.missing = [sorted([str(m["idxA"]), str(m["idxB"])]) for m in res]
+            cap.missing = [sorted([norm_token(m["idxA"]), norm_token(m["idxB"])]) for m in res]
             return iter(res)
         vitp.write_molecule_itp = write_molecule_itp
         gi.find_missing_edges = find_missing_edges
